@@ -535,7 +535,7 @@ def _paginate(candidates, query):
             candidates = candidates[int(page) * int(count) :]
         if count is not None:
             candidates = candidates[: int(count)]
-    except (KeyError, ValueError):
+    except (KeyError, ValueError, TypeError):
         raise error.BadRequest("page requires count, and both must be ints")
 
     return candidates
@@ -562,7 +562,7 @@ class EndpointLookupInterface(ThingWithCommonRD, ObservableResource):
                 if search_value is not None and search_value.endswith("*"):
 
                     def matches(x, start=search_value[:-1]):
-                        return x.startswith(start)
+                        return x is not None and x.startswith(start)
                 else:
 
                     def matches(x, search_value=search_value):
@@ -571,7 +571,9 @@ class EndpointLookupInterface(ThingWithCommonRD, ObservableResource):
                 if search_key in ("if", "rt"):
 
                     def matches(x, original_matches=matches):
-                        return any(original_matches(v) for v in x.split())
+                        return x is not None and any(
+                            original_matches(v) for v in x.split()
+                        )
 
                 if search_key == "href":
                     candidates = (
@@ -622,7 +624,7 @@ class ResourceLookupInterface(ThingWithCommonRD, ObservableResource):
                 if search_value is not None and search_value.endswith("*"):
 
                     def matches(x, start=search_value[:-1]):
-                        return x.startswith(start)
+                        return x is not None and x.startswith(start)
                 else:
 
                     def matches(x, search_value=search_value):
@@ -631,7 +633,9 @@ class ResourceLookupInterface(ThingWithCommonRD, ObservableResource):
                 if search_key in ("if", "rt"):
 
                     def matches(x, original_matches=matches):
-                        return any(original_matches(v) for v in x.split())
+                        return x is not None and any(
+                            original_matches(v) for v in x.split()
+                        )
 
                 if search_key == "href":
                     candidates = (
